@@ -33,6 +33,14 @@ pub enum Conduit {
     OpSize,
     OpLess,
     OpEqInList,
+    /// `>=` derived by the VM from `@<`
+    OpGe,
+    /// `<=` derived from `@<` and `@==`
+    OpLe,
+    /// `>` derived from `@<` and `@==`
+    OpGt,
+    /// `!=` derived from `@==`
+    OpNe,
     Display,
     GenFor,
     GenNext,
@@ -102,6 +110,10 @@ pub const CONDUITS: &[Conduit] = &[
     Conduit::OpSize,
     Conduit::OpLess,
     Conduit::OpEqInList,
+    Conduit::OpGe,
+    Conduit::OpLe,
+    Conduit::OpGt,
+    Conduit::OpNe,
     Conduit::Display,
     Conduit::GenFor,
     Conduit::GenNext,
@@ -124,6 +136,9 @@ pub enum TickShape {
     Add,
     /// `IDX[tick(id) - id]`: a wrong value fails in the Index instruction (out of bounds)
     Index,
+    /// `C_GAY(tick(id))`: the value is consumed by an Add on locals in the statement right after
+    /// a `yield` of a generator (the failing instruction is the first one after the resume)
+    GenAdd,
 }
 
 #[derive(Clone, Debug)]
@@ -191,6 +206,9 @@ pub struct Block {
 
 #[derive(Clone, Debug)]
 pub struct Try {
+    /// `tq = <prefix>, try …` then `i<result> = tq[1]`: the try expression is evaluated while a
+    /// tuple of the same function is under construction
+    pub tuple_prefix: Option<Expr>,
     pub id: u32,
     /// assign the value of the try expression to this int local
     pub result: Option<u8>,
@@ -229,6 +247,9 @@ pub enum Stmt {
     Try(Box<Try>),
     Dump(u32),
     Expr(Expr),
+    /// `i<v> = C_APPLY <arg>, |x|` + a multi-statement function literal that calls f<func>:
+    /// every frame on the path is an ordinary Koto call frame
+    AssignLambdaCall(u8, usize, Expr, u32),
 }
 
 #[derive(Clone, Debug, Default)]
@@ -267,6 +288,9 @@ pub struct GenKnobs {
     pub allow_return_in_try: bool,
     pub allow_try_result: bool,
     pub allow_chains: bool,
+    /// bias: catch blocks inside loops end with break/continue, and a fault point follows
+    /// every loop that sits inside a try block
+    pub dense_exits: bool,
     pub tick_shapes: Vec<TickShape>,
 }
 
@@ -288,6 +312,9 @@ impl GenKnobs {
         if r.chance(1, 2) {
             tick_shapes.push(TickShape::Index);
         }
+        if r.chance(1, 3) {
+            tick_shapes.push(TickShape::GenAdd);
+        }
         Self {
             max_funcs: r.range(1, NFUNCS_MAX as u64) as usize,
             max_depth: r.range(1, 3) as u8,
@@ -304,6 +331,7 @@ impl GenKnobs {
             allow_return_in_try: r.chance(1, 2),
             allow_try_result: r.chance(2, 3),
             allow_chains: r.chance(1, 2),
+            dense_exits: r.chance(1, 2),
             tick_shapes,
         }
     }
@@ -433,9 +461,15 @@ impl<'a> Gen<'a> {
                 s,
                 Stmt::Break | Stmt::Continue | Stmt::Return(_) | Stmt::Throw(_)
             );
+            let was_loop_in_try = c.in_try && matches!(s, Stmt::For(..) | Stmt::While(..));
             stmts.push(s);
             if terminal {
                 break;
+            }
+            if was_loop_in_try && self.k.dense_exits && self.r.chance(2, 3) {
+                // a later error in the same try block, after the loop
+                let t = self.tick();
+                stmts.push(Stmt::Assign(self.r.below(3) as u8, t));
             }
         }
         let tail = if want_tail {
@@ -544,6 +578,20 @@ impl<'a> Gen<'a> {
                         continue;
                     }
                 }
+                26 => {
+                    let funcs = self.callable_funcs();
+                    if funcs.is_empty() {
+                        continue;
+                    }
+                    let func = *self.r.pick(&funcs);
+                    self.p.n_calls += 1;
+                    Stmt::AssignLambdaCall(
+                        self.r.below(3) as u8,
+                        func,
+                        self.small_int_expr(c),
+                        self.p.n_calls,
+                    )
+                }
                 _ => continue,
             };
             return s;
@@ -583,6 +631,24 @@ impl<'a> Gen<'a> {
             kind: CatchKind::Any,
             block: self.block(c_body, with_result),
         });
+        if self.k.dense_exits && c.loop_level > 0 && !c.in_finally && self.r.chance(2, 3) {
+            for cb in catches.iter_mut() {
+                let last_terminal = cb
+                    .block
+                    .stmts
+                    .last()
+                    .is_some_and(|s| matches!(s, Stmt::Break | Stmt::Continue | Stmt::Return(_) | Stmt::Throw(_)));
+                if !last_terminal {
+                    let exit = if self.r.chance(1, 2) { Stmt::Break } else { Stmt::Continue };
+                    if self.r.chance(1, 2) {
+                        cb.block.stmts.push(exit);
+                    } else {
+                        let cond = Cond::Eq(Expr::LoopVar(c.loop_level - 1), self.r.irange(0, 1));
+                        cb.block.stmts.push(Stmt::If(cond, Block { stmts: vec![exit], tail: None }, Block::default()));
+                    }
+                }
+            }
+        }
         let finally = if has_finally {
             let c_fin = Ctx {
                 depth: c.depth + 1,
@@ -593,7 +659,13 @@ impl<'a> Gen<'a> {
         } else {
             None
         };
+        let tuple_prefix = if with_result && self.r.chance(1, 4) {
+            Some(self.small_int_expr(c))
+        } else {
+            None
+        };
         Try {
+            tuple_prefix,
             id,
             result: if with_result { Some(self.r.below(3) as u8) } else { None },
             body,
@@ -645,6 +717,12 @@ pub fn generate(r: &mut Rng, k: &GenKnobs) -> Program {
 // Printing to Koto source
 
 pub struct Printed {
+    /// AssignLambdaCall: call site id -> line of the call inside the function literal
+    pub lambda_call_line: std::collections::BTreeMap<u32, u32>,
+    /// line of `z = a + b` in the GAYGEN helper (first statement after a yield)
+    pub gay_line: u32,
+    /// line of `g(a)` in the C_APPLY helper
+    pub apply_line: u32,
     pub source: String,
     /// 1-based source line of each tick site (indexed by tick id)
     pub tick_line: Vec<u32>,
@@ -665,6 +743,8 @@ pub struct PrintOpts {
 }
 
 struct Printer {
+    /// line of the `f(q3)` call inside the function literal of an AssignLambdaCall, by site
+    lambda_call_line: std::collections::BTreeMap<u32, u32>,
     /// adaptor chains used by the program: their helper functions are emitted on demand
     chains: std::collections::BTreeSet<(u8, u8)>,
     out: Vec<String>,
@@ -739,6 +819,7 @@ impl Printer {
                     TickShape::Plain => format!("tick({id}, 0)"),
                     TickShape::Add => format!("(tick({id}, 1) + 0)"),
                     TickShape::Index => format!("({id} + IDX[tick({id}, 2) - {id}])"),
+                    TickShape::GenAdd => format!("C_GAY(tick({id}, 1))"),
                 }
             }
             Expr::Add(a, b) => {
@@ -782,6 +863,10 @@ impl Printer {
                     Conduit::OpSize => format!("(size OP{})", c.func),
                     Conduit::OpLess => format!("(if OP{} < {a} then 1 else 0)", c.func),
                     Conduit::OpEqInList => format!("(if [OP{0}] == [{a}] then 1 else 0)", c.func),
+                    Conduit::OpGe => format!("(if OPL{} >= {a} then 1 else 0)", c.func),
+                    Conduit::OpLe => format!("(if OPLE{} <= {a} then 1 else 0)", c.func),
+                    Conduit::OpGt => format!("(if OPLE{} > {a} then 1 else 0)", c.func),
+                    Conduit::OpNe => format!("(if OPE{} != {a} then 1 else 0)", c.func),
                     Conduit::Display => format!("(size 'x{{OPD{}}}y')", c.func),
                     Conduit::GenFor => format!("GENSUM{}({a})", c.func),
                     Conduit::GenNext => format!("GEN{}({a}).next().get()", c.func),
@@ -916,9 +1001,13 @@ impl Printer {
                 self.line(indent, &format!("throw {e}"));
             }
             Stmt::Try(t) => {
-                match t.result {
-                    Some(v) => self.line(indent, &format!("i{v} = try")),
-                    None => self.line(indent, "try"),
+                match (&t.tuple_prefix, t.result) {
+                    (Some(pre), Some(_)) => {
+                        let pre = self.expr(pre);
+                        self.line(indent, &format!("tq = {pre}, try"));
+                    }
+                    (_, Some(v)) => self.line(indent, &format!("i{v} = try")),
+                    (_, None) => self.line(indent, "try"),
                 }
                 let body_tail_used = t.result.is_some() && t.finally.is_none();
                 self.block_with_tail(&t.body, indent + 1, body_tail_used);
@@ -936,9 +1025,26 @@ impl Printer {
                     self.line(indent, "finally");
                     self.block_with_tail(f, indent + 1, t.result.is_some());
                 }
+                if let (Some(_), Some(v)) = (&t.tuple_prefix, t.result) {
+                    self.line(indent, &format!("i{v} = tq[1]"));
+                }
                 self.line(indent, &format!("dump({}, i0, i1, i2, s0, l0, m0, GL)", 1000 + t.id));
             }
             Stmt::Dump(n) => self.line(indent, &format!("dump({n}, i0, i1, i2, s0, l0, m0, GL)")),
+            Stmt::AssignLambdaCall(v, func, arg, site) => {
+                let a = self.expr(arg);
+                let ix = *site as usize;
+                if self.call_line.len() <= ix + 1 {
+                    self.call_line.resize(ix + 2, 0);
+                }
+                self.call_line[ix] = self.cur_line();
+                self.line(indent, &format!("i{v} = C_APPLY {a}, |x|"));
+                self.line(indent + 1, "q1 = x");
+                self.line(indent + 1, "q2 = q1 + 0");
+                self.line(indent + 1, "q3 = q2");
+                self.lambda_call_line.insert(*site, self.cur_line());
+                self.line(indent + 1, &format!("f{func}(q3)"));
+            }
             Stmt::Expr(e) => {
                 // assigned to a scratch local: the compiler elides operators (overloaded ones
                 // included) whose result is unused, which is not what is being studied here
@@ -962,6 +1068,7 @@ impl Printer {
 /// functions that exist.
 pub fn print(p: &Program, opts: &PrintOpts) -> Printed {
     let mut pr = Printer {
+        lambda_call_line: Default::default(),
         chains: Default::default(),
         out: vec![],
         tick_line: vec![0; p.n_ticks as usize + 1],
@@ -973,6 +1080,18 @@ pub fn print(p: &Program, opts: &PrintOpts) -> Printed {
     }
     pr.line(0, "export IDX = (0,)");
     // the argument of a conduit is evaluated exactly once: multi-use goes through a helper
+    pr.line(0, "export GAYGEN = |a, b|");
+    pr.line(1, "yield 0");
+    let gay_line = pr.cur_line();
+    pr.line(1, "z = a + b");
+    pr.line(1, "yield z");
+    pr.line(0, "export C_GAY = |a|");
+    pr.line(1, "g = GAYGEN(a, 0)");
+    pr.line(1, "g.next()");
+    pr.line(1, "return g.next().get()");
+    pr.line(0, "export C_APPLY = |a, g|");
+    let apply_line = pr.cur_line();
+    pr.line(1, "return g(a)");
     pr.line(0, "export C_PIPE = |f, a| a -> f");
     pr.line(0, "export C_EACH = |f, a| (a..=a + 1).each(|x| f(x)).count()");
     pr.line(0, "export C_KEEP = |f, a| (a..=a + 1).keep(|x| f(x) > -100000).count()");
@@ -1003,6 +1122,13 @@ pub fn print(p: &Program, opts: &PrintOpts) -> Printed {
         pr.line(1, &format!("@negate: || f{i}(0)"));
         pr.line(1, &format!("@size: || f{i}(0)"));
         pr.line(1, &format!("@<: |other| f{i}(other) > -100000"));
+        pr.line(1, &format!("@==: |other| f{i}(other) > -100000"));
+        pr.line(0, &format!("export OPL{i} ="));
+        pr.line(1, &format!("@<: |other| f{i}(other) > -100000"));
+        pr.line(0, &format!("export OPLE{i} ="));
+        pr.line(1, &format!("@<: |other| f{i}(other) < -100000"));
+        pr.line(1, &format!("@==: |other| f{i}(other + 1) > -100000"));
+        pr.line(0, &format!("export OPE{i} ="));
         pr.line(1, &format!("@==: |other| f{i}(other) > -100000"));
         pr.line(0, &format!("export OPD{i} ="));
         pr.line(1, &format!("@display: || 'D{{f{i}(0)}}'"));
@@ -1055,7 +1181,12 @@ pub fn print(p: &Program, opts: &PrintOpts) -> Printed {
     if !helpers.is_empty() {
         let shift = helpers.len() as u32;
         let at = header_len as u32;
-        for l in pr.tick_line.iter_mut().chain(pr.call_line.iter_mut()) {
+        for l in pr
+            .tick_line
+            .iter_mut()
+            .chain(pr.call_line.iter_mut())
+            .chain(pr.lambda_call_line.values_mut())
+        {
             if *l > at {
                 *l += shift;
             }
@@ -1064,6 +1195,9 @@ pub fn print(p: &Program, opts: &PrintOpts) -> Printed {
     }
     let lines = pr.out.len() as u32;
     Printed {
+        lambda_call_line: pr.lambda_call_line.clone(),
+        gay_line,
+        apply_line,
         source: pr.out.join("\n") + "\n",
         tick_line: pr.tick_line,
         call_line: pr.call_line,
